@@ -942,7 +942,15 @@ class Connection(ExportImport):
         # to the object.
 
         if self._needs_to_join:
-            self.transaction_manager.get().join(self)
+            try:
+                self.transaction_manager.get().join(self)
+            except BaseException:
+                # We are closed, or there is no transaction to join (explicit
+                # mode).  Mappings and lists have changed their data by the
+                # time they tell us: that must not pass for committed state.
+                if obj is not None:
+                    self._cache.invalidate(obj._p_oid)
+                raise
             self._needs_to_join = False
 
         if obj is not None:
